@@ -143,7 +143,7 @@ def run_c12(ctx):
 
 def run_c13(ctx):
     thorough = ctx.tier == "thorough"
-    extra = {"gen_plant": {}}
+    extra = {"gen_plant": {"Bound": 1}}       # planted violations also inside pipelines (17 contexts)
     extra.update({"ParseCheck/parse_corrupt:operators": {"BaseFamily": '"operators"', "EditMenu": 22 if thorough else 4}})
     fams = fam(ctx, list(GEN_FAMILIES), extra)
     return prog_like(ctx, "C13", fams, deep=True, soups=100000 if thorough else 10000, layouts=6 if thorough else 3)
